@@ -301,7 +301,7 @@ type BlockOpts struct {
 
 // C04Violations is the catalogue of contextual violations Build knows.
 var C04Violations = []string{"bad-sig", "missing-input", "spent-input", "later-output", "double-in-block", "immature", "overspend", "cb-too-much", "own-coinbase", "tap-undef-hashtype", "tap-single-oor",
-	"value-wrap", "cb-value-wrap", "sigops-over",
+	"value-wrap", "cb-value-wrap", "sigops-over", "offcurve-key", "offcurve-key",
 	"bad-sig", "missing-input", "spent-input", "later-output", "double-in-block", "immature", "overspend", "cb-too-much", "own-coinbase", "value-wrap", "sigops-over",
 	// open known findings: drawn less often, so that most runs get past them
 	"bip68-height", "bip68-time", "sigops-return"}
@@ -539,6 +539,20 @@ func (m *Miner) Build(parent *Node, o BlockOpts) (b *Block, ok bool) {
 			m.SignAll(t, spent, -1, COk)
 			violDone = true
 		}
+		var forged *Tx
+		if n == violAt && o.Viol == "offcurve-key" && t.Out[0].Value > 2000 {
+			// this transaction pays to a key that is not a point of the curve, the next one "spends" that output
+			t.Out[0].Pk = OffCurveScript()
+			var spent []Coin
+			for _, c := range ins {
+				spent = append(spent, c.Coin)
+			}
+			m.SignAll(t, spent, -1, COk)
+			forged = &Tx{Ver: 1, In: []TxIn{{Prev: OutPoint{t.ID(), 0}, Seq: 0xffffffff}}, Out: []TxOut{{t.Out[0].Value - 1000, m.W.Script(KP2PKH, m.R.Intn(m.W.NKeys()))}}}
+			forged.In[0].ScriptSig = push(ForgeOffCurveSig(LegacyDigest(forged, 0, OffCurveScript(), SigAll), SigAll))
+			forged.Valid = []bool{false}
+			violDone = true
+		}
 		if n == violAt && o.Viol == "value-wrap" {
 			for len(t.Out) < 2 {
 				t.Out = append(t.Out, TxOut{0, m.W.Script(KP2PKH, m.R.Intn(m.W.NKeys()))})
@@ -593,6 +607,10 @@ func (m *Miner) Build(parent *Node, o BlockOpts) (b *Block, ok bool) {
 			fees += tot - outsum
 		}
 		txs = append(txs, t)
+		if forged != nil {
+			txs = append(txs, forged)
+			fees += 1000
+		}
 		for _, c := range ins {
 			delete(view, c.Op)
 		}
